@@ -128,6 +128,8 @@ class Check(PropCheck):
             ext.append('(' * d + 'A' + ')' * c + ';')
             ext.append('(' * d + 'A,B' + ')' * c + ';')
             ext.append('(' * d + 'A:1' + '):2' * c + ';')
+        ext += ['(A),(B);', '(),();', '(A,B)C,(D,E)F;', '(A),B;', 'A,(B);', '(A),(B),(C);', '((A),(B));', '(A)B,(C)D;', ',(A);', '(A),;', '(A);(B);',
+                '(A:1),(B:2):3;', '(A)[c],(B);', '"q",(B);']
         for l1 in ['1e309', '-1e400', '2E999', '1' + '0' * 310, '1e-400', '-1e-330', '4.9e-324', '2e-324', '1.7976931348623159e308', 'inf', '-inf',
                    '+inf', 'Infinity', '-INF', 'nan', 'NaN', '-nan', '+NaN', '1e', 'e5', '.e1', '1.e1', '.5', '5.', '+.5e-1', '1_0', '0x10', '1e+', '--1', '+-1',
                    '1e1.5', 'infx', 'in', '٣', '1١']:
